@@ -90,7 +90,7 @@ def c10_models(thorough):
     if thorough:
         jobs += [
             ("GF256Lemmas", "MC_GF256_full.cfg", None, 6, 3000, "distributivity and associativity on all 16.7 M triples of GF(2^8)"),
-            ("Shamir", "MC_Shamir_thorough.cfg", None, 6, 3000, "GF(2^3): all polynomials for t<=4, bijection for up to 6 observed shares"),
+            ("Shamir", "MC_Shamir_thorough.cfg", None, 6, 3000, "GF(2^3): all polynomials for t<=4, bijection for up to 4 observed shares"),
             ("Shamir", "MC_Shamir_gf256.cfg", None, 4, 3000, "GF(2^8): indices {1,2,255}: all polynomials t<=2, bijection for 1 and 2 observed shares (65 536 coefficient pairs)"),
         ]
     return jobs
@@ -297,7 +297,7 @@ def run_c10(chk):
         bg.join()
     chk.assumptions += ["std::random_device interposed at link time (harness/common/vrng): coefficients are chosen by the script",
                         "gf_mul/gf_div/gf_add reached by including $(REPO)/src/crypto/Shamir.cpp in the driver's translation unit",
-                        "every driver command runs in a forked child under alarm(%d s) and RLIMIT_AS: a hang is an observed outcome" % 3,
+                        "every driver command runs in a forked child under RLIMIT_CPU (%d CPU-seconds; 10x for the enumerations), a wall-clock alarm and RLIMIT_AS: a hang is an observed outcome" % 3,
                         "perfect secrecy is a property of Split over a field with uniform coefficients: proved by TLC in GF(2^3) for all t<=n<=7 (bijection), field axioms "
                         "checked exhaustively at GF(2^8), and the real split's coefficient->value map enumerated for t=2,3"]
 
